@@ -24,6 +24,9 @@ import GrinVerif.Model.SerJson
     ser implcodecs                                     => ok | unknown-codec-names:<n,…>
     ser jhex <commit|blind|proof|sig> <utf-8 of the JSON string> [<0|1 compact sig valid>] => ok <bytes> | err | panic
     ser jnum <utf-8 of the JSON string>                => ok <u64> | err      (FeeFields from a string)
+    ser jhex <hashid|excessid> <utf-8 of the id>       => ok <bytes> | err     (the API handlers' id parsers)
+    ser jopfin <8 flags: keys of an OutputPrintable object> => ok | err | panic
+    ser jrp <utf-8 of the proof string | none>         => ok <bytes> | err | panic   (OutputPrintable::range_proof)
 
 `dec` lines of `PeerData` carry the clock value the decoder used as `PeerData@<now>`.
 
@@ -679,7 +682,14 @@ def runJHex (kind : String) (s : Bytes) (sigValid : Bool) : Option String :=
   | "blind" => some (showField (GV.SerJson.blindFromHex s))
   | "proof" => some (showField (GV.SerJson.proofFromHex s))
   | "sig" => some (showField (GV.SerJson.sigFromHex (fun _ => sigValid) s))
+  | "hashid" => some (showField (GV.SerJson.hashIdFromHex s))
+  | "excessid" => some (showField (GV.SerJson.excessIdFromHex s))
   | _ => none
+
+def showFin3 : GV.SerJson.Fin3 → String
+  | .ok => "ok"
+  | .err => "err"
+  | .panic => "panic"
 
 def ofOpt (impl : String) : Option String → Verdict
   | some m => cmpModel m impl
@@ -743,6 +753,12 @@ def handle (st : St) (args : List String) (impl : String) : St × Verdict :=
     (st, ofOpt impl ((parseHex hex).bind fun s => runJHex kind s false))
   | ["jhex", kind, hex, flag] =>
     (st, ofOpt impl ((parseHex hex).bind fun s => runJHex kind s (flag == "1")))
+  | ["jopfin", a, b, c, d, e, f, g, h] =>
+    (st, ofOpt impl (some (showFin3 (GV.SerJson.outputPrintableFinish
+      ⟨a == "1", b == "1", c == "1", d == "1", e == "1", f == "1", g == "1", h == "1"⟩))))
+  | ["jrp", "none"] => (st, ofOpt impl (some (showField (GV.SerJson.rangeProofHelper none))))
+  | ["jrp", hex] =>
+    (st, ofOpt impl ((parseHex hex).map fun s => showField (GV.SerJson.rangeProofHelper (some s))))
   | ["jnum", hex] =>
     (st, ofOpt impl ((parseHex hex).map fun s => match GV.SerJson.parseU64 s with
       | some n => s!"ok {n}"
